@@ -496,11 +496,19 @@ class RangeNode(SyntaxNode):
 
             try:
                 if start:
-                    start = get_single_text(field, start, tokenize=False,
-                                            removestops=False)
+                    # A bound the analyzer yields no token for (e.g. text
+                    # shorter than the minimum size of an N-gram field) is
+                    # still a bound: keep the typed text instead of silently
+                    # opening that end of the range
+                    text = get_single_text(field, start, tokenize=False,
+                                           removestops=False)
+                    if text is not None:
+                        start = text
                 if end:
-                    end = get_single_text(field, end, tokenize=False,
-                                          removestops=False)
+                    text = get_single_text(field, end, tokenize=False,
+                                           removestops=False)
+                    if text is not None:
+                        end = text
             except Exception:
                 # The field can't analyze text (no analyzer/no format)
                 e = sys.exc_info()[1]
